@@ -235,9 +235,9 @@ def fmt_exception(ex):
 	return 'reject' if isinstance(ex, ValueError) else f'crash:{type(ex).__name__}'
 
 
-def impl(case):
+def impl(case, ctx=None):
 	"""Returns the canonical text `ok:<tree>|<serialize outcome>` / reject / crash:<kind>, plus the live object (or None)."""
-	ctx = ctx_of(case['net'], case['network'])
+	ctx = ctx or ctx_of(case['net'], case['network'])
 	try:
 		descriptor = {key: to_python(ctx, value) for key, value in case['desc']}
 	except Exception as ex:  # pylint: disable=broad-except
@@ -1064,6 +1064,63 @@ CORNERS = [
 ]
 
 
+def _nem_definition(properties):
+	definition = [['owner_public_key', {'s': '19583B73669DD8A7020A9C702B728FAE89C20B3EA8B1473A804915B1272F3499'}],
+		['id', {'d': [['namespace_id', {'d': [['name', {'b': '616c696365'}]]}], ['name', {'b': '746f6b656e'}]]}], ['description', {'b': '61'}]]
+	if properties is not None:
+		definition.append(['properties', {'l': [
+			{'d': [['property_', {'d': [['name', {'b': name.encode().hex()}], ['value', {'b': value.encode().hex()}]]}]]} for name, value in properties]}])
+	return {'net': 'nem', 'network': 'testnet', 'entry': 'top', 'autosort': True, 'desc': [
+		['type', {'s': 'mosaic_definition_transaction_v1'}], ['rental_fee', {'i': 50000}], ['mosaic_definition', {'d': definition}]]}
+
+
+# what a descriptor yields must not depend on what the same factory built before (C10-M: a nested struct parser working on a shallow copy of
+# one prototype, whose list members are then shared by every struct the rule produces): descriptors with nested lists, given in sequence
+HISTORY = {
+	'nem': [_nem_definition([('divisibility', '3'), ('initialSupply', '1000')]), _nem_definition(None), _nem_definition([('divisibility', '3'), ('initialSupply', '1000')]),
+		_nem_definition([('supplyMutable', 'true')])],
+	'symbol': [
+		{'net': 'symbol', 'network': 'testnet', 'entry': 'top', 'autosort': True, 'desc': [['type', {'s': 'transfer_transaction_v1'}],
+			['mosaics', {'l': [{'d': [['mosaic_id', {'i': 5}], ['amount', {'i': 7}]]}, {'d': [['mosaic_id', {'i': 9}], ['amount', {'i': 1}]]}]}]]},
+		{'net': 'symbol', 'network': 'testnet', 'entry': 'top', 'autosort': True, 'desc': [['type', {'s': 'transfer_transaction_v1'}]]},
+		{'net': 'symbol', 'network': 'testnet', 'entry': 'embedded', 'autosort': True, 'desc': [['type', {'s': 'transfer_transaction_v1'}],
+			['mosaics', {'l': [{'d': [['mosaic_id', {'i': 5}], ['amount', {'i': 7}]]}]}]]},
+	],
+}
+
+
+def history_sequence(netname, network_name, sequence):
+	"""[(index, text with a factory that built nothing before, text in sequence through ONE factory, twice over)] where the two differ."""
+	sequence = [dict(case, network=network_name) for case in sequence]
+	alone = [impl(case, Ctx(netname, network_name))[0] for case in sequence]
+	shared = Ctx(netname, network_name)
+	differing = []
+	for index, case in enumerate(sequence + sequence):
+		in_sequence, _ = impl(case, shared)
+		if in_sequence != alone[index % len(sequence)]:
+			differing.append((index, alone[index % len(sequence)], in_sequence))
+	return differing
+
+
+def history_probe(check, netname, network_name, generated):
+	sequences = [('directed', [case for case in HISTORY.get(netname, [])])]
+	nested = [case for case in generated if not case.get('inject') and not case.get('flags_int') and '"l": [{' in json.dumps(case['desc'])][:40]
+	if nested:
+		sequences.append(('generated', nested))
+	for label, sequence in sequences:
+		if not sequence:
+			continue
+		check.case(f'{netname}:history:{label}', json.dumps([case['desc'] for case in sequence], sort_keys=True))
+		differing = history_sequence(netname, network_name, sequence)
+		if differing:
+			index, alone, in_sequence = differing[0]
+			doubled = list(sequence) + list(sequence)
+			check.fail(f'history-dependent:{netname}', f'{netname} {dict(doubled[index]["desc"]).get("type", {}).get("s", "?")}: descriptor number {index + 1} of a '
+				f'sequence given to one factory yields {in_sequence[:300]} but {str(alone)[:300]} when the factory has built nothing before',
+				{'sequence': doubled[:index + 1], 'net': netname, 'network': network_name, 'observed': in_sequence[:2000], 'alone': str(alone)[:2000],
+				'how': 'run.py replay <this file>'})
+
+
 def run(check, unrecognised):
 	check.trusted += [
 		'translator harness/gens/c10.py: DescriptorOps (constants of 23 anchor functions) and DescriptorRulesSc/Nc (TYPE_HINTS, autodetected classes, '
@@ -1112,6 +1169,7 @@ def run(check, unrecognised):
 			chunk = 4000
 			for start in range(0, len(cases), chunk):
 				evaluate(check, cases[start:start + chunk])
+			history_probe(check, netname, network_name, cases)
 			check.extra[f'{netname}_via_facade'] = ctx.via_facade
 	check.extra['transaction_type_names'] = entry_names
 	check.extra['forms_generated'] = dict(sorted(forms.items()))
@@ -1130,6 +1188,16 @@ def run(check, unrecognised):
 
 def replay(data):
 	codec.setup_paths()
+	if 'sequence' in data['replay']:
+		sequence = data['replay']['sequence']
+		netname, network_name = data['replay']['net'], data['replay']['network']
+		shared = Ctx(netname, network_name)
+		in_sequence = [impl(dict(case, network=network_name), shared)[0] for case in sequence][-1]
+		alone = impl(dict(sequence[-1], network=network_name), Ctx(netname, network_name))[0]
+		print('last descriptor after the others:', in_sequence[:900])
+		print('last descriptor alone           :', alone[:900])
+		print('property:', 'holds' if in_sequence == alone else 'history-dependent - what the descriptor yields depends on what the factory built before')
+		return 0 if in_sequence == alone else 1
 	case = data['replay']['case']
 	text, transaction = impl(case)
 	if case.get('flags_int'):
